@@ -1,0 +1,19 @@
+//go:build verif
+// +build verif
+
+package tars
+
+// Verification hook (build tag verif only): close every adapter of a proxy through the public AdapterProxy.Close, so
+// that a finished scenario leaves no keep-alive ticker that would later dial a port the scenario no longer owns.
+func VerifC08CloseAdapters(s *ServantProxy) {
+	em, ok := s.manager.(*endpointManager)
+	if !ok || em.epList == nil {
+		return
+	}
+	em.epList.Range(func(_, v interface{}) bool {
+		if adp, ok := v.(*AdapterProxy); ok {
+			adp.Close()
+		}
+		return true
+	})
+}
